@@ -613,6 +613,68 @@ pub fn c10_double_ended<P: Payload>(st: &State<P>, rng: &mut Rng, stats: &mut C1
     }
 }
 
+/// Raw. The DoubleEndedIterator laws judged against the iterator's own forward sequence: usable on
+/// an arena the model no longer follows (start nodes and sequences come from the arena itself).
+pub fn c10_double_ended_raw<P: Payload>(arena: &Arena<P>, starts: &[NodeId], rng: &mut Rng) -> R {
+    let r = guarded(|| {
+        let bound = 2 * arena.count() + 3;
+        let mut obs = 0u64;
+        for &id in starts {
+            for kind in [DeKind::Children, DeKind::Preceding, DeKind::Following] {
+                let f: Vec<NodeId> = match kind {
+                    DeKind::Children => id.children(arena).take(bound).collect(),
+                    DeKind::Preceding => id.preceding_siblings(arena).take(bound).collect(),
+                    DeKind::Following => id.following_siblings(arena).take(bound).collect(),
+                };
+                if f.len() >= bound {
+                    continue; // not finite: C02's business
+                }
+                let got: Vec<NodeId> = match kind {
+                    DeKind::Children => id.children(arena).rev().take(bound).collect(),
+                    DeKind::Preceding => id.preceding_siblings(arena).rev().take(bound).collect(),
+                    DeKind::Following => id.following_siblings(arena).rev().take(bound).collect(),
+                };
+                let mut rf = f.clone();
+                rf.reverse();
+                if got != rf {
+                    bail!(format!("{:?}-rev-vs-forward", kind), "{:?} of node {}: forward iteration yields {:?} but rev() yields {:?}", kind, usize::from(id), us(&f), us(&got));
+                }
+                let len = f.len() + 2;
+                let mut pats: Vec<Vec<bool>> = vec![(0..len).map(|k| k % 2 == 0).collect(), (0..len).map(|k| k % 2 == 1).collect()];
+                for _ in 0..6 {
+                    pats.push((0..len).map(|_| rng.chance(1, 2)).collect());
+                }
+                for pat in &pats {
+                    let pulled = de_pull(arena, id, kind, pat);
+                    let (mut fi, mut bi) = (0usize, 0usize);
+                    for (k, (front, item)) in pulled.iter().enumerate() {
+                        let exp = if fi + bi >= f.len() {
+                            None
+                        } else if *front {
+                            fi += 1;
+                            Some(f[fi - 1])
+                        } else {
+                            bi += 1;
+                            Some(f[f.len() - bi])
+                        };
+                        if *item != exp {
+                            let pat_s: String = pat.iter().map(|b| if *b { 'F' } else { 'B' }).collect();
+                            bail!(format!("{:?}-{}-vs-forward", kind, if *front { "front-pull" } else { "back-pull" }), "{:?} of node {}, pull pattern {}: pull #{} returned {:?}, the laws require {:?}; its own forward sequence is {:?}", kind, usize::from(id), pat_s, k + 1, item.map(usize::from), exp.map(usize::from), us(&f));
+                        }
+                    }
+                    obs += 1;
+                }
+            }
+        }
+        Ok(obs)
+    });
+    match r {
+        Ok(Ok(n)) => Ok(n),
+        Ok(Err((kind, detail))) => Err(Finding::new(&["C10"], format!("double-ended/{}", kind), detail)),
+        Err(p) => Err(Finding::new(&["C10", "C05"], "double-ended/panic".into(), p)),
+    }
+}
+
 // ======================================================================= C11
 
 pub fn c11_lookups<P: Payload>(st: &mut State<P>, foreign: &Arena<P>) -> R {
@@ -947,6 +1009,37 @@ pub fn c12_probes<P: Payload>(st: &State<P>, rng: &mut Rng) -> R {
             let k = rng.below(rs.len());
             rs.swap_remove(k);
         }
+        let live = m.live_handles();
+        // the id of a removed node as the arena itself reports it (iter() + get_node_id): it names the
+        // same removed node and must be refused just like the id kept from before the removal
+        for &r in &rs {
+            let slot = m.nodes[r].slot;
+            if let Some(rid) = st.arena.get_node_id(&st.arena.as_slice()[slot]) {
+                if let Some(l) = rng.pick(&live) {
+                    let lid = m.nodes[*l].id;
+                    for kind in INS_KINDS {
+                        for (t, x) in [(rid, lid), (lid, rid)] {
+                            let mut c = st.arena.clone();
+                            let res = guarded(|| match kind {
+                                InsKind::Append => t.checked_append(x, &mut c),
+                                InsKind::Prepend => t.checked_prepend(x, &mut c),
+                                InsKind::After => t.checked_insert_after(x, &mut c),
+                                InsKind::Before => t.checked_insert_before(x, &mut c),
+                            });
+                            match res {
+                                Ok(Err(_)) => {}
+                                Ok(Ok(())) => bail!(format!("checked_{}-accepted-reobtained-id", kind.name()), "checked_{} accepted the id that get_node_id reports for removed slot {}", kind.name(), slot + 1),
+                                Err(p) => bail!(format!("checked_{}-panic-reobtained-id", kind.name()), "checked_{} panicked on the id that get_node_id reports for removed slot {}: {}", kind.name(), slot + 1, p),
+                            }
+                            if c != st.arena {
+                                bail!(format!("checked_{}-changed-arena-reobtained-id", kind.name()), "checked_{} refused the re-obtained id of removed slot {} but changed the arena", kind.name(), slot + 1);
+                            }
+                            obs += 1;
+                        }
+                    }
+                }
+            }
+        }
         for &r in &rs {
             let mut pairs: Vec<(H, H)> = Vec::new();
             for _ in 0..2 {
@@ -1219,13 +1312,40 @@ pub fn reference_render(m: &Model, start: H, text: &dyn Fn(H) -> String) -> Stri
     out.join("\n")
 }
 
+/// a writer that fails after a number of bytes: aborts a print part-way
+pub struct LimitedWriter {
+    pub left: usize,
+}
+
+impl std::fmt::Write for LimitedWriter {
+    fn write_str(&mut self, s: &str) -> std::fmt::Result {
+        if s.len() > self.left {
+            self.left = 0;
+            return Err(std::fmt::Error);
+        }
+        self.left -= s.len();
+        Ok(())
+    }
+}
+
 pub fn c14_pretty<P: Payload + std::fmt::Display>(st: &State<P>, starts: &[H], text: &dyn Fn(H, u8) -> String, shapes: &mut HashSet<u64>) -> R {
     wrap(&["C14"], "pretty", guarded(|| {
         let m = &st.model;
         let mut obs = 0;
-        for &h in starts {
+        for (si, &h) in starts.iter().enumerate() {
             let id = m.nodes[h].id;
             for mode in 0u8..4 {
+                if (si + mode as usize) % 3 == 0 {
+                    // a print into a writer that fails part-way must not influence the next print
+                    use std::fmt::Write as _;
+                    let mut w = LimitedWriter { left: (h * 13 + si * 7 + mode as usize * 3) % 40 };
+                    let _ = guarded(|| match mode {
+                        0 => write!(w, "{}", id.debug_pretty_print(&st.arena)),
+                        1 => write!(w, "{:#}", id.debug_pretty_print(&st.arena)),
+                        2 => write!(w, "{:?}", id.debug_pretty_print(&st.arena)),
+                        _ => write!(w, "{:#?}", id.debug_pretty_print(&st.arena)),
+                    });
+                }
                 let got = guarded(|| match mode {
                     0 => format!("{}", id.debug_pretty_print(&st.arena)),
                     1 => format!("{:#}", id.debug_pretty_print(&st.arena)),
